@@ -18,14 +18,13 @@ import shutil
 
 from .. import common, tlc
 
-LANG = "vtlang"
-PATTERN = "*.vtm"
-GRAMMAR = """Model: items+=Item;
+# every carrier language has the same body and its own first keyword (its name), so a file of one
+# language is a syntax error at 1:1 for every other language
+GRAMMAR = """Model: '%s' items*=Item;
 Item: Def | Use;
 Def: 'def' name=ID;
 Use: 'use' ref=[Def];
 """
-GRAMMAR_FILE = "vtlang.tx"
 
 
 def text(cs):
@@ -36,15 +35,18 @@ def codes(s):
     return [ord(ch) for ch in s]
 
 
-def render_model(status, line, col):
-    """Model text whose first error (if any) is at (line, col), 1-based.
+def render_model(keyword, status, line, col):
+    """Model text of the language with first keyword `keyword` (line 1) whose first error (if any)
+    is at (line, col), 1-based, line >= 2.
 
     syntax:   a character no rule accepts, at (line, col)
     semantic: a reference to an undefined name; the *name* stands at (line, col), col >= 5
     """
-    head = ["def d%d" % i for i in range(1, max(line, 1))]
+    head = [keyword] + ["def d%d" % i for i in range(2, max(line, 2))]
     if status == "ok":
-        return "def a\ndef b\nuse a\nuse b\n"
+        return keyword + "\ndef a\ndef b\nuse a\nuse b\n"
+    if line < 2:
+        raise tlc.MachineryError("line 1 holds the language keyword")
     if status == "syntax":
         return "\n".join(head + [" " * (col - 1) + "?"]) + "\n"
     if status == "semantic":
@@ -66,17 +68,22 @@ class _Capture(logging.Handler):
             self.records.append((record.levelname, f"<unformattable {e!r}>"))
 
 
+def _kwlist(kw):
+    return [dict(key=codes(k), ty="bool" if v is True else ("str" if isinstance(v, str) else type(v).__name__),
+                 val=codes(v) if isinstance(v, str) else [])
+            for k, v in sorted(kw.items())]
+
+
 _LOC = re.compile(r"^ERROR: (.*?):(\d+):(\d+): ")
 
 
 class RealCli:
-    """Registers a carrier language and recording generators, runs cases, cleans up."""
+    """Registers the case's carrier languages and recording generators, runs cases, cleans up."""
 
     def __init__(self):
         common.ensure_repo_on_path()
         from click.testing import CliRunner
         import textx.registration as reg
-        from textx import metamodel_from_str
         from textx.cli import textx as group
         self.reg = reg
         self.group = group
@@ -90,13 +97,10 @@ class RealCli:
         self.cwd = os.getcwd()
         self.dir = tlc.scratch("vt-c30-")
         os.chdir(self.dir)
-        with open(GRAMMAR_FILE, "w") as f:
-            f.write(GRAMMAR)
-        mm = metamodel_from_str(GRAMMAR)
         reg.clear_language_registrations()
         reg.clear_generator_registrations()
-        reg.register_language(reg.LanguageDesc(LANG, pattern=PATTERN, description="carrier language of the C30 check",
-                                               metamodel=lambda **kw: mm))
+        self.langset = None       # key of the registered languages
+        self.mms = {}             # (name, mparams) -> meta-model
         self.targets = {}
         self.written = {}
         self.calls = []
@@ -107,51 +111,79 @@ class RealCli:
         root.setLevel(logging.INFO)
 
     # ------------------------------------------------------------------ render
-    def _record(self, metamodel, model, output_path, overwrite, debug, **kw):
-        fn = getattr(model, "_tx_filename", None) if model is not None else None
-        self.calls.append(dict(
-            file=codes(os.path.basename(fn)) if fn else [],
-            ow=bool(overwrite),
-            kw=[dict(key=codes(k), ty="bool" if v is True else ("str" if isinstance(v, str) else type(v).__name__),
-                     val=codes(v) if isinstance(v, str) else [])
-                for k, v in sorted(kw.items())]))
+    def _recorder(self, gen_name):
+        def record(metamodel, model, output_path, overwrite, debug, **kw):
+            fn = getattr(model, "_tx_filename", None) if model is not None else None
+            mp = dict(getattr(model, "_tx_model_params", None) or {}) if model is not None else {}
+            self.calls.append(dict(file=codes(os.path.basename(fn)) if fn else [], gen=codes(gen_name),
+                                   ow=bool(overwrite), kw=_kwlist(kw), mp=_kwlist(mp)))
+        return record
 
-    def target_for(self, decl):
-        key = common.canon(decl)
+    def ensure_languages(self, langs):
+        """Register exactly the case's languages (name, pattern *suffix, model parameters)."""
+        key = common.canon([[l["name"], l["suffix"], l["mparams"]] for l in langs])
+        if key == self.langset:
+            return
+        from textx import metamodel_from_str
+        reg = self.reg
+        reg.clear_language_registrations()
+        reg.clear_generator_registrations()
+        self.targets = {}
+        for l in langs:
+            name, mparams = text(l["name"]), tuple(text(x) for x in l["mparams"])
+            if (name, mparams) not in self.mms:
+                mm = metamodel_from_str(GRAMMAR % name)
+                for p in mparams:
+                    mm.model_param_defs.add(p, "model parameter defined by the C30 check")
+                self.mms[(name, mparams)] = mm
+                with open(name + ".tx", "w") as f:
+                    f.write(GRAMMAR % name)
+            mm = self.mms[(name, mparams)]
+            reg.register_language(reg.LanguageDesc(name, pattern="*" + text(l["suffix"]),
+                                                   description="carrier language of the C30 check",
+                                                   metamodel=(lambda m: (lambda **kw: m))(mm)))
+        self.langset = key
+
+    def target_for(self, case):
+        """One target per combination of declarations; a generator per language and one for "any"."""
+        decls = [(text(l["name"]), l["decl"]) for l in case["langs"]] + [("any", case["anydecl"])]
+        key = common.canon(decls)
         if key not in self.targets:
             reg = self.reg
             tgt = "vtrec%d" % len(self.targets)
-            params = None
-            if decl["declared"]:
-                params = [reg.GeneratorParam(text(p["name"]), "declared by the C30 check", bool(p["mandatory"]))
-                          for p in decl["params"]]
-            for lang in (LANG, "any"):
+            for lang, decl in decls:
+                params = None
+                if decl["declared"]:
+                    params = [reg.GeneratorParam(text(p["name"]), "declared by the C30 check", bool(p["mandatory"]))
+                              for p in decl["params"]]
                 reg.register_generator(reg.GeneratorDesc(lang, tgt, "recording generator of the C30 check",
-                                                         generator=self._record, custom_args=params))
+                                                         generator=self._recorder(lang), custom_args=params))
             self.targets[key] = tgt
         return self.targets[key]
 
-    def ensure_files(self, files):
-        for f in files:
+    def ensure_files(self, case):
+        for f in case["files"]:
             name = text(f["name"])
             if os.path.basename(name) != name or not name:
                 raise tlc.MachineryError(f"file name {name!r} is not a plain name")
-            sig = (f["status"], f["line"], f["col"])
+            sig = (text(case["langs"][f["lang"] - 1]["name"]), f["status"], f["line"], f["col"])
             if self.written.get(name) != sig:
                 with open(name, "w") as fh:
                     fh.write(render_model(*sig))
                 self.written[name] = sig
 
     def argv(self, case):
-        head = {"language": ["--language", LANG], "grammar": ["--grammar", GRAMMAR_FILE], "ext": []}[case["mode"]]
+        sel = text(case["langs"][case["sel"] - 1]["name"])
+        head = {"language": ["--language", sel], "grammar": ["--grammar", sel + ".tx"], "ext": []}[case["mode"]]
         tail = [text(t) for t in case["argv"]]
         if case["cmd"] == "check":
             return ["check"] + head + tail
-        return ["generate", "--target", self.target_for(case["decl"])] + head + tail
+        return ["generate", "--target", self.target_for(case)] + head + tail
 
     # ------------------------------------------------------------------ run + project
     def run(self, case):
-        self.ensure_files(case["files"])
+        self.ensure_languages(case["langs"])
+        self.ensure_files(case)
         argv = self.argv(case)
         self.calls = []
         self.cap.records = []
@@ -195,10 +227,19 @@ class RealCli:
             shutil.rmtree(self.dir, ignore_errors=True)
 
 
+def _langkey(c):
+    return common.canon([[l["name"], l["suffix"], l["mparams"]] for l in c["langs"]])
+
+
 def _work(cases):
     real = RealCli()
     try:
-        return [real.run(c) for c in cases]
+        # cases with the same registered languages run together (re-registration is the costly part)
+        order = sorted(range(len(cases)), key=lambda i: _langkey(cases[i]))
+        out = [None] * len(cases)
+        for i in order:
+            out[i] = real.run(cases[i])
+        return out
     finally:
         real.close()
 
